@@ -38,10 +38,9 @@ def check_emitted(ctx, ver, src, emitted, how, rp):
     return k
 
 
-def run(ctx):
-    rng = ctx.rng
-    em = []
-    for _ in range(ctx.n(9000, 200000)):
+def vectors_round(ctx, rng, n, em):
+    s = c = None
+    for _ in range(n):
         ver = rng.choice("234")
         s = core.rand_vector(ver, rng, p_absent=rng.choice([0.0, 0.2, 0.5, 0.8]), p_nd=rng.choice([0.0, 0.2]))
         o, e = obs.construct(ver, s)
@@ -62,9 +61,13 @@ def run(ctx):
         else:
             check_emitted(ctx, ver, s, r.split("/", 1)[1], "rh_vector() vector part", rp)
         em.append((k, c))
-    ctx.sample({"vector": s, "clean": c})
-    # interactive results
-    for _ in range(ctx.n(1500, 30000)):
+    if s is not None:
+        ctx.sample({"vector": s, "clean": c})
+
+
+def interactive_round(ctx, rng, n, em):
+    rp = res = None
+    for _ in range(n):
         iver = rng.choice(["2", "3.0", "3.1", "4"])
         allm = rng.random() < 0.6
         ans = inter.rand_answers(iver, allm, rng, complete=True)
@@ -75,7 +78,26 @@ def run(ctx):
             continue
         k = check_emitted(ctx, iver[0], rp, res["vector"], "ask_interactively() result", rp)
         em.append((k, res["vector"]))
-    ctx.sample({"interactive": rp, "result": res.get("vector")})
+        # the object built from the builder's result emits valid vectors too
+        o, e = obs.construct(iver[0], res["vector"])
+        if o is not None:
+            try:
+                check_emitted(ctx, iver[0], rp, o.clean_vector(), "clean_vector() of the builder's result", rp)
+            except Exception as ex:  # noqa
+                ctx.violation("%s:accessor-raised" % iver, "clean_vector() raised", rp, None, repr(ex), replay=rp)
+    if rp is not None:
+        ctx.sample({"interactive": rp, "result": res.get("vector")})
+
+
+def run(ctx):
+    rng = ctx.rng
+    em = []
+    # interactive sessions and vector constructions are interleaved (emitted strings must stay valid whatever ran before)
+    nv, ni = ctx.n(9000, 200000), ctx.n(1500, 30000)
+    interactive_round(ctx, rng, ni // 3, em)
+    vectors_round(ctx, rng, nv // 2, em)
+    interactive_round(ctx, rng, ni - ni // 3, em)
+    vectors_round(ctx, rng, nv - nv // 2, em)
     # the Lean regex semantics agrees with Python's re on the emitted strings (validates the Re terms)
     if ctx.model_available:
         sel = list(dict.fromkeys(em))[: ctx.n(6000, 60000)]
